@@ -7,7 +7,8 @@ CL = {(3, 1): "a refused action changed the table, the hand, or produced an acti
       (3, 4): "an accepted betting action / pass was not published as exactly one action event naming player, action, round and hand",
       (3, 5): "an accepted betting action / pass was not applied exactly once (backend calls of its kind != 1)",
       (3, 6): "an accepted readiness signal was not published as an action event",
-      (3, 7): "an accepted payment was not published as an action event when the collection completed"}
+      (3, 7): "an accepted payment was not published as an action event when the collection completed",
+      (3, 8): "an API call panicked"}
 
 
 def signature(case, step, code=3):
